@@ -78,6 +78,10 @@ pub fn string_to_tokens(file_id: usize, content: &str) -> Vec<PlacedToken> {
             if is_newline {
                 last_newline = char_at_byte[byte_range.start].unwrap();
                 line += 1;
+            } else if let Some(last) = content[byte_range.clone()].rfind('\n') {
+                // Tokens spanning several lines (strings) also move us down.
+                line += content[byte_range.clone()].matches('\n').count();
+                last_newline = char_at_byte[byte_range.start + last].unwrap();
             }
             PlacedToken { token, span }
         })
